@@ -221,6 +221,37 @@ func capacity(r *vlib.Run, d *vlib.Driver) {
 	}
 }
 
+// capacityOracle: implementation-only (quick tier too): cap+50 distinct values within one TTL.
+// From the property text: never more than the capacity; eviction is oldest-first, so a
+// middle-aged value is still remembered and the very first one is not.
+func capacityOracle(r *vlib.Run) {
+	const capN = 102400
+	f, _ := replayfilter.New(3 * time.Hour)
+	now := base
+	for i := 0; i < capN+50; i++ {
+		now = now.Add(time.Nanosecond)
+		if f.TestAndSet(now, valBytes(i)) {
+			r.Violate("fresh-value-reported-seen", "impl-oracle", fmt.Sprintf("distinct value %d reported as seen during the capacity run", i), map[string]interface{}{"capacityOracle": true})
+			return
+		}
+		if i == capN-1 || i == capN || i == capN+49 {
+			if m, l := replayfilter.VerifLen(f); m > capN || l > capN || l < capN-1 {
+				r.Violate("capacity-size-wrong", "impl-oracle", fmt.Sprintf("after %d distinct inserts within the TTL the filter holds map=%d fifo=%d entries (capacity %d)", i+1, m, l, capN), map[string]interface{}{"capacityOracle": true})
+				return
+			}
+		}
+	}
+	r.Case("capacity-oracle", true)
+	r.Count("class", "capacity-overflow-oracle")
+	now = now.Add(time.Nanosecond)
+	if !f.TestAndSet(now, valBytes(capN/2)) {
+		r.Violate("capacity-evicted-young-entry", "impl-oracle", fmt.Sprintf("after overflowing the capacity by 50, value %d (far from the oldest) was forgotten: eviction is not oldest-first", capN/2), map[string]interface{}{"capacityOracle": true})
+	}
+	if f.TestAndSet(now, valBytes(0)) {
+		r.Violate("capacity-oldest-not-evicted", "impl-oracle", "after overflowing the capacity by 50 the oldest value is still remembered", map[string]interface{}{"capacityOracle": true})
+	}
+}
+
 func main() {
 	r := vlib.NewRun("C11")
 	r.Rule = "history = list of (time step, value); exhaustive over all histories up to the tier's length over 3 values x time steps {-2,0,1,ttl-1,ttl} (ttl=4), then random long histories incl. negative steps; non-trivial = a value repeats AND (an expiry/reset made a repeat 'new' OR a backwards step occurs); distinct by canonical op line"
@@ -234,6 +265,8 @@ func main() {
 		var c hcase
 		if err := r.LoadReplay(&raw); err == nil && raw["concurrent"] == true {
 			concurrent(r, 2000)
+		} else if raw["capacityOracle"] == true {
+			capacityOracle(r)
 		} else if raw["capacity"] == true {
 			capacity(r, d)
 		} else if err := r.LoadReplay(&c); err == nil {
@@ -270,6 +303,7 @@ func main() {
 		check(r, d, c)
 	}
 	concurrent(r, r.Scale(200, 5000))
+	capacityOracle(r)
 	if r.Thorough() {
 		capacity(r, d)
 	}
